@@ -4,8 +4,10 @@
 //!   * `extract`            — `extract_compact_segment` on real files, random span sets and buffer budgets;
 //!   * `merge-plan`,
 //!     `merge-plan-small`   — `plan_archive_merge` judged by executing the plan on an interval model.
-//! `ArchiveManager::compact` is exercised as an operation of C04 histories, not here.
+//!   * `archive-compact`    — `ArchiveManager::compact` with a second manager over the same data files.
+//! (`ArchiveManager::compact` on a single manager is also an operation of C04 histories.)
 
+mod archive;
 mod extract;
 mod plan;
 
@@ -41,6 +43,8 @@ fn main() {
     ck.run(
         Section::enumerate("merge-plan-small", plan::SMALL_SCOPE, plan::small_scope, move |c: &plan::PlanCase| plan::check(c, &k2)).shards(16),
     );
+
+    ck.run(Section::pbt("archive-compact", tier.pick(600, 30_000), archive::strategy, archive::check).shards(16).shrink_iters(200));
 
     ck.finish();
 }
